@@ -148,6 +148,20 @@ func (g *scopeGen) stmt(tag *int) {
 		if !g.declare() {
 			g.printAll(*tag)
 		}
+	case 3:
+		// a function literal (not capturing anything) declared in the block: the names of the enclosing function stay
+		// what they were
+		if g.rng.Intn(3) == 0 {
+			v := g.loopV
+			g.loopV++
+			g.line("h%d := func(q int) int {", v)
+			g.line("\tr := q + 1")
+			g.line("\treturn r * 2")
+			g.line("}")
+			g.line("fmt.Println(\"h\", h%d(%s))", v, g.in())
+			g.kinds["func-literal"]++
+		}
+		g.printAll(*tag)
 	case 2:
 		vs = g.assignable()
 		if len(vs) > 0 && g.nin < g.maxIn {
@@ -162,8 +176,6 @@ func (g *scopeGen) stmt(tag *int) {
 			}
 			g.kinds["assign"]++
 		}
-		g.printAll(*tag)
-	case 3:
 		g.printAll(*tag)
 	case 4: // if with init
 		if g.nin+2 >= g.maxIn {
